@@ -87,6 +87,10 @@ class ModeWrapper(KDDataset):
 
     @staticmethod
     def set_item(mode, item, batch, value):
+        if not isinstance(batch, (list, tuple)):
+            # single item -> batch is not wrapped into a tuple (see get_item)
+            assert mode.split(" ") == [item]
+            return value
         idx = mode.split(" ").index(item)
         return tuple(it if i != idx else value for i, it in enumerate(batch))
 
